@@ -27,6 +27,8 @@ public:
 World* makeWorld(const std::string& property) {
   if (property == "C04") return new SplitWorld(wa::makeEngineWorld(property), wb::makeBsWorld(property), 4);
   if (property == "C05") return new SplitWorld(wa::makeEngineWorld(property), wb::makeBsWorld(property), 4);
+  // C20: the engine binding in world A; the build-database binding (llb_database_*) over the files world B's histories leave
+  if (property == "C20") return new SplitWorld(wa::makeEngineWorld(property), wb::makeBsWorld(property), 5);
   if (property == "C01" || property == "C02" || property == "C03" || property == "C04" || property == "C05" ||
       property == "C06" || property == "C07" || property == "C20")
     return wa::makeEngineWorld(property);
